@@ -371,12 +371,21 @@ func (n *Node) Validate(rcBuildHeight uint64, qc *lib.QuorumCertificate, evidenc
 	}
 	br, e := n.Ctrl.ValidateProposal(rcBuildHeight, qc, evidence)
 	if e != nil || !keep {
-		n.Ctrl.Consensus.BlockResult = nil
-		n.Ctrl.ResetFSM()
+		n.RoundInterrupt()
 		return br, e
 	}
 	n.Ctrl.Consensus.BlockResult = br
 	return br, nil
+}
+
+// RoundInterrupt runs the real bft.RoundInterrupt (what the replica does when a proposal is refused or a
+// phase times out): it forgets the cached block result and resets the FSM; its pacemaker message goes to
+// the node's own inbox, which nobody reads here.
+func (n *Node) RoundInterrupt() {
+	n.Enter()
+	n.Ctrl.Lock()
+	n.Ctrl.Consensus.RoundInterrupt()
+	n.Ctrl.Unlock()
 }
 
 // ValidateProposal is Validate for a Proposal object (PROPOSE-phase certificate, round 0).
@@ -400,8 +409,11 @@ func (n *Node) HandlePeerBlock(msg *lib.BlockMessage, syncing bool) lib.ErrorI {
 	n.Ctrl.Lock()
 	_, e := n.Ctrl.HandlePeerBlock(msg, syncing)
 	n.Ctrl.Unlock()
-	// a new height forgets the cached result (bft.NewHeight -> b.BlockResult = nil on reset)
-	n.Ctrl.Consensus.BlockResult = nil
+	// a new height forgets the cached result (bft.NewHeight -> b.BlockResult = nil on reset); a refused
+	// peer block does not end the round, so the cached result of the block under consensus stays
+	if e == nil {
+		n.Ctrl.Consensus.BlockResult = nil
+	}
 	return e
 }
 
